@@ -57,16 +57,45 @@ func (cliStream) Generate(rng *rand.Rand, tier string, emit func(Case)) {
 		if len(l.Dirs) == 0 {
 			l.Dirs = []string{"p:A"} // without --spec-dirs the tool uses the default directories: not this stream's subject
 		}
+		schemaChoice := "builtin"
+		if i%4 == 1 {
+			// a Spec the library's own checks accept and the builtin schema rejects (a negative hook timeout): with
+			// the schema the tool installs as validator (the builtin one unless --schema says otherwise) it is a
+			// file in error, with --schema none it is not
+			for p := range l.Phys {
+				l.Phys[p] = append(l.Phys[p], fileDesc{Name: "schema-only.json", Kind: "schemaonly", Vendor: "v2.com", Class: "c2", Devs: []string{"d2"}, Tag: "SO"})
+				break
+			}
+			if i%8 == 1 {
+				schemaChoice = "none"
+			}
+		}
 		// keep directory kinds the tool can be pointed at; drop kinds that need unusual paths
 		lj, _ := json.Marshal(l)
 		var lm map[string]any
 		_ = json.Unmarshal(lj, &lm)
 		for _, c := range cmds {
-			emit(Case{"op": "list", "cmd": c, "layout": lm})
+			emit(Case{"op": "list", "cmd": c, "layout": lm, "schema": schemaChoice})
 		}
 		emit(Case{"op": "inject", "layout": lm, "patterns": hxList([][]string{{"*/*"}, {"v1.com/*"}, {"*/*=d0", "v2.com/c1=d1"}, {"nomatch*"}, {"*"}, {"*/*", "*/*=d0"}, {"v1.com/c1=d0", "v1.com/*", "*/c1=d0"},
 			{"*/*=d1", "*/*=d0", "*/*=d1"}, {"v?.com/c[12]=d*", "*/c1=*"}}[rng.Intn(9)]),
 			"ocikind": rng.Intn(3), "format": []string{"json", "yaml"}[rng.Intn(2)]})
+	}
+	// documents beyond 1 MiB, as a file argument and on standard input: a valid one, and one whose only defect
+	// comes after the first MiB
+	pad := jstr("PAD=" + strings.Repeat("x", 1300000))
+	for _, bad := range []bool{false, true} {
+		var devEdits any = obj("env", jarr{jstr("A=b")})
+		if bad {
+			devEdits = obj("env", jstr("not-a-list"))
+		}
+		big := obj("cdiVersion", jstr("1.0.0"), "kind", jstr("vendor.com/class"), "containerEdits", obj("env", jarr{pad}),
+			"devices", jarr{obj("name", jstr("dev0"), "containerEdits", devEdits)})
+		for _, stdin := range []bool{true, false} {
+			for _, y := range []bool{false, true} {
+				emit(Case{"op": "validatetool", "docs": []any{map[string]any{"doc": docToProto(big), "yaml": y}}, "label": "beyond-1MiB", "schema": "builtin", "stdin": stdin})
+			}
+		}
 	}
 	g := docGen{rng}
 	for i := 0; i < nv; i++ {
@@ -127,6 +156,15 @@ func (cliStream) Execute(c Case) {
 		dirs, _ := materialize(l)
 		// the same configuration the tool uses: default options (auto-refresh on), so that directory
 		// monitoring errors are part of "what the library reports"; the watch is stopped afterwards
+		// ... and the same Spec validator: the schema named by --schema (default: builtin)
+		schemaArg, _ := c["schema"].(string)
+		if schemaArg == "" {
+			schemaArg = "builtin"
+		}
+		if sch, err := schema.Load(schemaArg); err == nil {
+			cdi.SetSpecValidator(schema.WithSchema(sch))
+			defer cdi.SetSpecValidator(nil)
+		}
 		cache, _ := cdi.NewCache(cdi.WithSpecDirs(dirs...))
 		defer func() { _ = cache.Configure(cdi.WithAutoRefresh(false)) }()
 		var keys []string
@@ -168,7 +206,7 @@ func (cliStream) Execute(c Case) {
 				cs = []any{}
 			}
 			lib["classes"] = cs
-			lines, exit := runTool(nil, "cdi", "-d", dirArg, c["cmd"].(string))
+			lines, exit := runTool(nil, "cdi", "-d", dirArg, "-s", schemaArg, c["cmd"].(string))
 			obs["stdout"], obs["exit"] = hxList(lines), exit
 			return
 		}
